@@ -288,6 +288,24 @@ def continue_divergences(run, exe, name, out, wanted_or, per_file=None):
             pass
 
 
+def preemption_bounded(run, exe, name, init, nthreads, env, wanted_or, ignore=()):
+    pf = os.path.join(WORK, "tlc", "pb_%s_%d.init" % (re.sub(r"[^A-Za-z0-9_]", "_", name), os.getpid()))
+    e = dict(env, VERIF_PLAIN="1")
+    pre = "plain=1 "
+    if ignore:
+        e["VERIF_IGNORE"] = ",".join(ignore); pre += "ignore=%s " % ",".join(ignore)
+    open(pf, "w").write("T 1 %s%s\nE\n" % (pre, init))
+    bound = 2 if nthreads <= 2 else 1
+    cap = 60000 if run.tier == "quick" else 600000
+    res = run_harness_env(exe, ["pb", pf, str(bound), str(cap), REPLAYS], e)
+    os.unlink(pf)
+    run.add("evaluations", res["stats"].get("tours", 0))
+    run.cov.setdefault("preemption_bounded", []).append({"config": name, "bound": bound, "schedules": res["stats"].get("tours", 0), "violations": len(res["viols"])})
+    for v in res["viols"]:
+        if v[0] in wanted_or:
+            run.violation("%s|%s|preemption-bounded %s" % (v[0], v[1], name), v[4], v[5])
+
+
 def run_family(run, exe, prop, configs, parallel=5, workers=3, env=None, cap_tours=None):
     """configs: list of (name, conf).  Runs each (TLC exhaustive + tours + lock-step replay), then applies the
     decision rule: real-code oracle failures of this property's oracles, and spec-level refutations of this
@@ -357,6 +375,9 @@ def run_family(run, exe, prop, configs, parallel=5, workers=3, env=None, cap_tou
                 for v in resy["viols"]:
                     if v[0] in wanted_or:
                         run.violation("%s|%s|explore %s" % (v[0], v[1], name), v[4], v[5])
+            # (3) systematically: every schedule of the configuration with at most two preemptions (one for three threads and more), at the
+            #     granularity of plain accesses: a window of a few instructions is one of the enumerated points, not a matter of luck
+            preemption_bounded(run, exe_bin if conf.get("Binary") else exe, name, out["init"], len(conf["progs"]), out["env"], wanted_or, foreign if (foreign and not hit) else [])
         try:
             os.unlink(out["sched"])
         except OSError:
